@@ -22,6 +22,7 @@ type Program struct {
 	ssa         *ssa.Program
 	fns         map[string]*ssa.Function
 	specPrelude string
+	specOpaque  map[string][2]string // spec function -> (define line, declare line)
 	specBase    string
 	specCex     string
 	indAxioms   []string
@@ -260,7 +261,12 @@ func (p *Program) buildSpecPrelude() (err error) {
 			continue
 		}
 		ps, _ := sig(f)
-		sb.WriteString(fmt.Sprintf("(define-fun sf_%s (%s) %s %s)\n", f.Name, ps, specSort(f.Ret), body(f)))
+		def := fmt.Sprintf("(define-fun sf_%s (%s) %s %s)\n", f.Name, ps, specSort(f.Ret), body(f))
+		sb.WriteString(def)
+		if p.specOpaque == nil {
+			p.specOpaque = map[string][2]string{}
+		}
+		p.specOpaque[f.Name] = [2]string{def, fmt.Sprintf("(declare-fun sf_%s (%s) %s)\n", f.Name, sorts(f), specSort(f.Ret))}
 	}
 	for _, n := range p.specs.FunOrder {
 		f := p.specs.Funs[n]
@@ -275,8 +281,13 @@ func (p *Program) buildSpecPrelude() (err error) {
 				b = strings.ReplaceAll(b, "(sf_"+m+" ", "(sf_"+m+"_lim ")
 			}
 		}
-		sb.WriteString(fmt.Sprintf("(assert (forall (%s) (! (= (sf_%s %s) (sf_%s_lim %s)) :pattern ((sf_%s %s)))))\n", ps, f.Name, as, f.Name, as, f.Name, as))
-		sb.WriteString(fmt.Sprintf("(assert (forall (%s) (! (= (sf_%s %s) %s) :pattern ((sf_%s %s)))))\n", ps, f.Name, as, b, f.Name, as))
+		ax := fmt.Sprintf("(assert (forall (%s) (! (= (sf_%s %s) (sf_%s_lim %s)) :pattern ((sf_%s %s)))))\n", ps, f.Name, as, f.Name, as, f.Name, as) +
+			fmt.Sprintf("(assert (forall (%s) (! (= (sf_%s %s) %s) :pattern ((sf_%s %s)))))\n", ps, f.Name, as, b, f.Name, as)
+		sb.WriteString(ax)
+		if p.specOpaque == nil {
+			p.specOpaque = map[string][2]string{}
+		}
+		p.specOpaque[f.Name] = [2]string{ax, ""}
 	}
 	for _, a := range p.specs.Axioms {
 		env := &Env{g: g, vars: map[string]Val{}, pure: true}
